@@ -19,6 +19,9 @@ CLAIMED = {
  "C01": ("exploration", "deterministic simulation: seeded emitter interleavings (yield stalls), latency/jitter/chunking network, typed-handler delivery oracle keyed by unique emission ids",
          "Real sio server and 1-3 real sio clients over the simulated network on polling / websocket / polling->websocket upgrade, recovery on/off, three buffer limits; up to 8 emitter tasks per run emit events of 12 argument-shape classes and 17 event names with size targets at the 125/126, 32 KiB, 64 KiB and limit boundaries; each emission must reach exactly one handler, the one registered for its name, with equal arguments; any disconnect on the fault-free network is a violation.",
          "§7 C01", TB),
+ "C07": ("fault_enumeration", "deterministic simulation: faults on the candidate connection enumerated over byte offsets of both directions + seeded refuse/stall/black-hole + reactive 'pong at the time-out instant' coincidence; exactly-once delivery oracle on numbered messages",
+         "Real eio server and client upgrading polling->websocket while numbered text/binary messages flow both ways around the swap. Fixed sweep: the candidate connection is cut at byte k of c2s and s2c (every 12th byte quick, every byte thorough: each protocol step of the upgrade). Seeded: refused, stalled past either side's upgrade time-out, black-holed; the probe pong held until the client's time-out instant +-2 ns. Sessions that stayed up: every message exactly once; never a duplicate or phantom; close reported at most once; if nobody switched, the session keeps working on polling (probe messages both ways); fault-free upgrades complete with both ends on websocket; no API call hangs.",
+         "§7 C07", TB),
  "C10": ("exploration", "deterministic simulation: hostile-frame fault kind from a raw protocol peer against the real server/client, process-death attribution by the supervisor; plus labelled input enumeration of the decoder",
          "A raw peer (polling POSTs or WebSocket) sends sequences of grammar-aware hostile Socket.IO frames, mixed with valid ones, to the real server while an honest real client shares it; a raw WebSocket server does the same to the real Go client. The worker process must survive, the honest connection must still complete an emit-with-ack, a new connection must be possible, the client API must return. Side run (input enumeration, kept apart): every string <= 4 (thorough 5) over the protocol alphabet and the whole corpus through Parser.Add + decode for 7 handler signature families.",
          "§7 C10", TB),
